@@ -15,6 +15,8 @@ import (
 var table = map[string]func(*core.Ctx){
 	"C15": props.C15,
 	"C09": props.C09,
+	"C08": props.C08,
+	"C14": props.C14,
 }
 
 func main() {
